@@ -17,13 +17,13 @@ def run_all(root, props=None):
         rep = Report(p, "quick", 0)
         try:
             P.PROPS[p](repo, rep)
+            fails = rep.failures()
         except AnalysisError as e:
             out[p] = (2, ["ANALYSIS-ERROR: %s" % str(e)[:100]])
             continue
         except Exception as e:
             out[p] = (2, ["ANALYSIS-ERROR: internal exception %s: %s" % (type(e).__name__, str(e)[:80])])
             continue
-        fails = rep.failures()
         if fails:
             out[p] = (1, sorted({o["rule"] for o in fails}))
     return out, getattr(repo, "equivalent", {})
